@@ -22,6 +22,14 @@ CHECKS = {
    text="Proved in Coq for every configuration of the machine: for every input and every way of cutting it into buffers, the chunked run and the whole-buffer run agree on error/no-error and on the reported position (Chunk.chunks_same_control: a buffer boundary only clears the integer scan-ahead flag, which neither control nor the position fields depend on). Values: the model's run_chunks is compared with the real reader entry points of all front-ends (single- and multi-document) under 1-byte, 2-byte, every single split point, random multi-splits and refill-boundary straddles at every offset, and the reader outcome is compared with the []byte entry point, across front-ends (Tokenizer rebuilt, gen.Parser, Validator) and with sen.Parse on accepted JSON. Two genuine chunking defects are recorded as known findings.",
    technique="Coq proof of chunking-independence of control/error/position + chunk-level model/implementation correspondence",
    design='6/C03'),
+ 'C05': dict(
+   text="The denotation of JSONPath expressions (get_spec in Jp/Expr.v: child, index with negative-from-end, wildcard, descent = self and all descendants, union in listed order, slice with the documented normalisation, filter through the script denotation) is an executable Coq specification; theorems proved about it for all paths/data: position independence of every fragment, compositionality of path evaluation, the index law, and the exact membership and ascending order of a positive-step slice. jp.Expr.Get is compared with the extracted get_spec on a complete grid of slice/index/union bounds (-7..7 x steps -3..3 x lengths 0..5, as last and as inner fragment) and on seeded paths x trees (ordered comparison where the order is defined). Paths ending in a bare descent are excluded (no defined result list).",
+   technique="Coq-specified denotation with proved laws + grid-exhaustive and seeded correspondence against the extracted specification",
+   design='6/C05'),
+ 'C12': dict(
+   text="The script denotation (apply_bin/evals/script_match in Jp/Expr.v, numbers as exact rationals) is the executable Coq specification of the operator documentation; proved for all operands: == and != are complements, mismatched kinds and containers are unequal, ordering between different kinds is false, int/float compare by value, a missing path is Nothing for exists/has, evaluation is total (always yields a value), and Match(v) is membership in the filter result. Script.Match and filters are compared with the extracted denotation on the complete operator x left-kind x right-kind matrix (16 x 16 x 16 plus constants, missing paths and Nothing) and on seeded nested equations; every panic of the real code is a violation.",
+   technique="Coq-specified operator semantics with proved laws + exhaustive operand-kind matrix correspondence",
+   design='6/C12'),
  'C06': dict(
    text="Proved in Coq for the four JSON front-ends: no control state reachable on any input faults on any byte (Sweep.ctl_never_faults, from the same sweep as C01; the control-level faults are the literal-word index). Data-level faults (nil-map write in add, p.stack[0], slice bounds) are modelled as Fault outcomes of the machine and checked by correspondence on the fault-directed streams (mutated near-valid inputs, exhaustive short strings); every panic of the real code is a violation.",
    technique="Coq proof (control never faults, all inputs) + fault-outcome model and correspondence for data faults",
